@@ -40,7 +40,9 @@ GEN_MODULES = [("GenTheta", ["theta/hash_table.rs", "theta/serialization.rs", "t
                  "theta/sketch.rs": ["preamble_longs"]})]
 OPNAMES = {1: "update", 2: "insert_hash", 3: "update_preimage", 4: "trim", 5: "reset", 6: "compact", 7: "dump",
            8: "layout", 9: "layout_exact", 10: "serialize", 11: "serialize_compressed", 12: "deserialize", 13: "reserialize",
-           14: "roundtrip", 15: "roundtrip_slot", 16: "bounds"}
+           14: "roundtrip", 15: "roundtrip_slot", 16: "bounds", 17: "deserialize_with_seed", 18: "try_build"}
+# seeds whose 16-bit seed hash is zero (unusable: seed() panics, documented; deserialize_with_seed returns Err)
+ZERO_HASH_SEEDS = [50541, 104725, 110638, 144099]
 CORR_MASK = [1, 2, 3, 4, 5, 6, 7, 9, 10]   # op 8 (raw layout at any time) is judged by the layout oracle only
 
 M = (1 << 64) - 1
@@ -130,7 +132,8 @@ def gen_case(rng, cid, tier, lg_k=None, size_class=None, p_choices=None):
         pbits, p = f32_widened_bits(rng.choice([2.0 ** -20, 2.0 ** -30, 1e-3, 1e-20, 1e-30, 2.0 ** -63, 2.0 ** -64]))
     seed = rng.choice([9001, 9001, 0, 1, 2**64 - 1, rng.getrandbits(64)])
     if pyref.seed_hash(seed) == 0:
-        seed = 9001
+        seed = 9001       # the sketch of a case needs a usable seed (documented precondition of seed()); the unusable
+                          # ones are exercised explicitly by ops 17 / 18 (seed_ops below)
     sh = pyref.seed_hash(seed)
     theta0 = MAX_THETA if p >= 1.0 else max(1, int((2.0 ** 63) * p))
     k = 1 << lg_k
@@ -289,7 +292,7 @@ def cfg_of(rng, lg_k=None, p=None):
     pbits, pf = f32_widened_bits(p if p is not None else rng.choice([1.0, 1.0, 0.5, 0.25]))
     seed = rng.choice([9001, 9001, 0, 1, 2**64 - 1, rng.getrandbits(64)])
     if pyref.seed_hash(seed) == 0:
-        seed = 9001
+        seed = 9001       # see gen_case
     theta0 = MAX_THETA if pf >= 1.0 else max(1, int((2.0 ** 63) * pf))
     return [lg_k, rf, pbits, seed, pyref.seed_hash(seed)], theta0
 
@@ -580,7 +583,29 @@ def gen_malformed_case(rng, cid, tier):
             img = mutate(rng, enc_image(variant, es, theta, sh, ordered, empty, si_flag=rng.random() < 0.3))
         # whatever is accepted is re-serialized both ways and forked through one writer (deserialize o serialize = id)
         ops.append((12, img)); ops.append((13, [0])); ops.append((13, [1])); ops.append((15, [rng.getrandbits(1)]))
+    if cid % 3 == 0:
+        ops += seed_ops(rng, sh)
     return Case(cid, cfg, ops, tag="theta-malformed")
+
+
+def gen_size_trim_case(rng, cid, which):
+    """C18 'k after trim': a never-rebuilt sketch (p = 1, theta still 1.0) holding a distinct count strictly between k and
+    15/16 * 2k (k+1, 1.5k, cap-1, cap), with repeats mixed in, then trim(): retained must drop to exactly k"""
+    lg_k = rng.choice([5, 5, 6, 7, 8])
+    cfg, theta0 = cfg_of(rng, lg_k=lg_k, p=1.0)
+    seed = cfg[3]
+    k = 1 << lg_k; cap = 15 * 2 * k // 16
+    n = [k + 1, 3 * k // 2, cap - 1, cap][which % 4]
+    x0 = rng.getrandbits(40)
+    ops = [(7, [])]
+    for i in range(n):
+        x = x0 + i
+        ops.append((1, [x, pyref.murmur3_x64_128(pyref.le8(x), seed)[0]]))
+        if i and rng.random() < 0.3:
+            y = x0 + rng.randrange(i)                      # a repeat
+            ops.append((1, [y, pyref.murmur3_x64_128(pyref.le8(y), seed)[0]]))
+    ops += [(7, []), (10, [1]), (4, []), (7, []), (10, [1]), (11, [1]), (4, []), (7, [])]
+    return Case(cid, cfg, ops, tag="theta-size-trim")
 
 
 def gen_size_case(rng, cid, tier, big=False):
@@ -608,6 +633,25 @@ def gen_size_case(rng, cid, tier, big=False):
     return Case(cid, cfg, ops, tag="theta-size")
 
 
+def seed_ops(rng, sh_case):
+    """ops with an explicit seed: the builder with usable and unusable seeds (op 18), deserialize_with_seed of valid images
+    (empty, serVer 1/3/4 non-empty) under an unusable reader seed, a usable but wrong one, and the right one (op 17)"""
+    ops = []
+    for s in [rng.choice(ZERO_HASH_SEEDS), 9001, rng.getrandbits(64)]:
+        ops.append((18, [s, pyref.seed_hash(s)]))
+    for _ in range(3):
+        variant = rng.choice([1, 3, 3, 4])
+        es, theta, ordered, empty = random_abs(rng, variant, rng.choice(["empty", "single", "few", "block"]))
+        wseed = rng.choice([9001, 7, rng.getrandbits(64)])
+        if pyref.seed_hash(wseed) == 0:
+            wseed = 9001
+        img = enc_image(variant, es, theta, pyref.seed_hash(wseed), ordered, empty)
+        for rs in [rng.choice(ZERO_HASH_SEEDS), wseed, wseed + 1]:
+            ops.append((17, [rs, pyref.seed_hash(rs)] + img))
+            ops.append((13, [rng.getrandbits(1)]))
+    return ops
+
+
 def gen_extreme_case(rng, cid, tier):
     """C17: valid API histories at the documented extremes (lg_k 5, the smallest and largest sampling probabilities, every
     resize factor, trim/reset/compact interleaved), with the confidence bounds and both serializers called along the way"""
@@ -623,6 +667,8 @@ def gen_extreme_case(rng, cid, tier):
             if rng.random() < 0.5:
                 o = rng.getrandbits(1)
                 ops.append((11, [o])); ops.append((14, [o, rng.getrandbits(1)]))
+    if cid % 4 == 0:
+        ops += seed_ops(rng, c.cfg[4])
     return Case(cid, c.cfg, ops, tag="theta-extreme")
 
 
@@ -636,7 +682,10 @@ def gen(rng, tier, n=None, focus=None):
     if focus == "malformed":
         return [gen_malformed_case(rng, i, tier) for i in range(n)]
     if focus == "size":
-        return [gen_size_case(rng, i, tier, big=(i == 0)) for i in range(n)]
+        # the last third (at least four) of the cases: trim() on never-rebuilt sketches holding between k and 15/16*2k entries
+        nt = max(4, n // 3)
+        return [gen_size_case(rng, i, tier, big=(i == 0)) for i in range(n - nt)] + \
+               [gen_size_trim_case(rng, n - nt + j, j) for j in range(nt)]
     if focus == "extremes":
         return [gen_extreme_case(rng, i, tier) for i in range(n)]
     cases = []
@@ -663,5 +712,5 @@ def nontrivial(case, obs):
     nonempty = any(o and o[0] > 0 for (c, a), o in zip(case.ops, obs or []) if c in (1, 2, 3))
     # a sampling sketch whose updates were all screened out: not empty although it retains nothing
     screened = any(o and len(o) > 3 and o[3] == 0 for (c, a), o in zip(case.ops, obs or []) if c == 7)
-    codec = any(c in (12, 14, 15) for c, a in case.ops)
+    codec = any(c in (12, 14, 15, 17) for c, a in case.ops)
     return (seen and ((len(hs) >= 3 and nonempty) or (len(hs) >= 1 and screened))) or codec
